@@ -27,7 +27,7 @@ def c18_seq(start, owner, ops):
     pool = {'b0': BraceGroup(h[0]), 'b1': BraceGroup(h[1]), 'k2': BracketGroup(h[2]),
             'b0x': BraceGroup(h[0])}
     strs = {'sb': '{' + h[1] + '}', 'sk': '[' + h[0] + ']', 'bad1': '{' + h[0], 'bad2': h[1] + ']', 'bad3': h[2],
-            'blank': ' '}
+            'blank': ' ', 'sbb': '{{' + h[1] + '}}', 'skk': '[[' + h[0] + ']]', 'sbn': '{' + h[2] + '{y}}', 'sknb': '[{' + h[1] + '}]'}
     init = [pool[k] for k in start]
     if owner:
         soup = TexSoup('\\a' + ''.join([gtext(g) for g in init]) + ' tail')
